@@ -715,9 +715,15 @@ class RecordContextMatcher:
                             "Generator variable '{}' overwrites existing variable!".format(gen.target.id)
                         )
                 values = recursive_generator(node.generators[::-1])
-                for val in values:
-                    result = self.eval(node.elt)
-                    yield result
+                try:
+                    for val in values:
+                        result = self.eval(node.elt)
+                        yield result
+                finally:
+                    # the loop variables go out of scope with the generator: another generator expression (a later
+                    # one, or this one entered again for the next element of an enclosing one) may use the names
+                    for gen in node.generators:
+                        self.data.pop(gen.target.id, None)
 
             return generator_expr()
 
